@@ -49,6 +49,12 @@ func checkC02(c *Ctx) {
 	c2Numbers(c)
 	c2ErrorExpansion(c)
 	c2Reflect(c)
+	c.Rule("R2.12", "level encoders agree with their documented case on every path (incl. the fallback for levels outside the tables)", 4)
+	c2LevelEncoders(c)
+	c.Rule("R2.10", "strings, times and layouts reach the line escaped (raw run-time text would not decode to the logged value)", 27)
+	c1Taint(c, "R2.10")
+	c.Rule("R2.11", "a value that fails to encode leaves no partial output (a reflected value is encoded before its separator/key is written)", 2)
+	c10Reflected(c, "R2.11")
 }
 
 func c2Entry(c *Ctx) {
@@ -683,5 +689,69 @@ func c2Reflect(c *Ctx) {
 			ok = containsS(atoms, "b.bs[(len(b.bs) - 1)] == 10") && Desc(st.Instr.Val) == "b.bs[:(len(b.bs) - 1)]"
 		}
 		c.Check(ok, "R2.8", tn.String(), "trims-one-newline", tn.Pos(), "TrimNewline removes exactly one trailing '\\n'")
+	}
+}
+
+
+// c2LevelEncoders: Lowercase*LevelEncoder / Capital*LevelEncoder take every string they emit from the source of
+// their own case: Level.String / the lower-case colour table, resp. Level.CapitalString / the capital colour table.
+func c2LevelEncoders(c *Ctx) {
+	for _, n := range []string{"LowercaseLevelEncoder", "LowercaseColorLevelEncoder", "CapitalLevelEncoder", "CapitalColorLevelEncoder"} {
+		fn := c.Func(CorePath, n)
+		if !c.Anchor("R2.12", "zapcore."+n, fn != nil) {
+			continue
+		}
+		want := "lower"
+		if strings.HasPrefix(n, "Capital") {
+			want = "capital"
+		}
+		seqs, trunc := ConcPaths(fn, ConcCfg{
+			Event: func(in ssa.Instruction, st *ConcState) string {
+				switch x := in.(type) {
+				case *ssa.Call:
+					if f := CalleeFunc(x); f != nil {
+						switch f.FullName() {
+						case "(go.uber.org/zap/zapcore.Level).String":
+							return "lower"
+						case "(go.uber.org/zap/zapcore.Level).CapitalString":
+							return "capital"
+						}
+						if f.Name() == "AppendString" && x.Call.IsInvoke() {
+							return "emit"
+						}
+					}
+				case *ssa.Lookup:
+					d := st.Desc(x.X)
+					switch {
+					case strings.Contains(d, "Lowercase"):
+						return "lower"
+					case strings.Contains(d, "Capital"):
+						return "capital"
+					}
+					if _, isMap := types.Unalias(x.X.Type()).Underlying().(*types.Map); isMap {
+						return "table?" + d
+					}
+				}
+				return ""
+			},
+		})
+		var bad []string
+		for _, sq := range seqs {
+			nsrc, nemit := 0, 0
+			for _, e := range strings.Split(sq, " ; ") {
+				switch {
+				case e == "emit":
+					nemit++
+				case e == want:
+					nsrc++
+				case e != "":
+					bad = append(bad, sq)
+				}
+			}
+			if nemit != 1 || nsrc == 0 {
+				bad = append(bad, sq)
+			}
+		}
+		c.Check(!trunc && len(seqs) > 0 && len(bad) == 0, "R2.12", fn.String(), "case-agrees", fn.Pos(), "on each of the %d paths (helpers inline) exactly one string is emitted and every source consulted is the %s-case one (Level.String / CapitalString and the matching colour table): %v", len(seqs), want, uniqSorted(bad))
 	}
 }
